@@ -29,7 +29,7 @@ case "$cmd" in
   diff="$1"; prop="$2"; budget="${3:-30}"
   [ -z "$(git -C /repo status --porcelain)" ] || { echo "/repo dirty"; exit 2; }
   git -C /repo apply "$diff" || { echo "APPLY FAILED"; exit 2; }
-  (cd /verif && VERIF_BUDGET_S=$budget ./check "$prop" quick 2>&1 | grep -v "^KNOWN-FINDING" | cut -c1-330 | tail -6)
+  (cd /verif && VERIF_EVIDENCE_DIR=/verif/.build/evidence-of-other-trees VERIF_BUDGET_S=$budget ./check "$prop" quick 2>&1 | grep -v "^KNOWN-FINDING" | cut -c1-330 | tail -6)
   git -C /repo checkout -- . ; git -C /repo clean -fdq ; git -C /repo status --short
   ;;
 esac
